@@ -8,7 +8,7 @@ IKE = ('TLC checks spec/Ike.tla (all invariants and action properties) exhaustiv
        'state graph is replayed into two real IkeSaController objects and the projected state compared after every step')
 CHECKS = {
     'C19': dict(level='exploration', ref='7 C19', technique='TLA+ operator Load over tagged YAML values (Config.tla: three-valued verdict, normal form; totality checked by TLC; cases via JsonSerialize) as oracle for Configuration(...)',
-                text='TLC evaluates Load on a base dictionary with every single perturbation of every documented key at connection, auth and protect-entry level (valid alternatives, missing, ill-typed, unknown, out of range) and top-level shapes; each case is loaded by the real Configuration: verdict ok => loads to exactly the normal form (algorithms in order, defaults, no ENCR for AH, NO_ESN, selectors, ports, protocol, mode, lifetimes, DPD, typed identities, credentials), err => ConfigurationError, either => one of both; pairs of perturbations are judged on the outcome class; any other exception is a violation.',
+                text='TLC evaluates Load on a base dictionary, on ordered pairs of protect entries / two connections (order independence) and with every single perturbation of every documented key at connection, auth and protect-entry level (valid alternatives, missing, ill-typed, unknown, out of range) and top-level shapes; each case is loaded by the real Configuration: verdict ok => loads to exactly the normal form (algorithms in order, defaults, no ENCR for AH, NO_ESN, selectors, ports, protocol, mode, lifetimes, DPD, typed identities, credentials), err => ConfigurationError, either => one of both; pairs of perturbations are judged on the outcome class; any other exception is a violation.',
                 note='getaddrinfo served by the harness; integers / booleans where an address or identity is expected are "either" (observation O-6).'),
     'C20': dict(level='exploration', ref='7 C20', technique='runtime monitor (NoLeak) over the histories generated from the TLA+ specifications: every transition of Ike.tla scenarios, failure scenarios, hostile schedules of MainLoop.tla',
                 text='Every log record with level >= INFO and every traceback printed to stderr during the replayed histories (handshakes with retries, adversary injections, wrong credentials / identities / methods, refusals, kernel errors, hostile input through main_loop) is searched for every secret the harness knows (PSKs, private key, IKE key rings, SKEYSEED, CHILD_SA keys as seen by the kernel model, DH secrets) in raw, hex, base64 and repr form; a positive control proves the detector sees the material in a verbose run.',
